@@ -18,7 +18,6 @@ limitations under the License.
 
 #include <list>
 #include <map>
-#include <regex>
 #include <sstream>
 #include <stack>
 #include <utility>
@@ -174,17 +173,118 @@ std::string printConnections(const ComponentMap &componentMap, const VariableMap
     return connections;
 }
 
+/**
+ * @brief Remove any XML declaration from the given string.
+ *
+ * Remove everything from "<?xml", followed by some whitespace and "version=",
+ * up to the last "?>" on the same line.
+ *
+ * Note: this is done by hand rather than with a regular expression since the
+ *       depth of the recursion of std::regex grows with the length of what is
+ *       matched, i.e. a long enough line exhausts the stack.
+ *
+ * @param text The string from which to remove the XML declarations.
+ *
+ * @return The string without XML declarations.
+ */
+std::string removeXmlDeclarations(const std::string &text)
+{
+    static const std::string declarationStart = "<?xml";
+    static const std::string version = "version=";
+    static const std::string declarationEnd = "?>";
+
+    std::string res;
+    size_t pos = 0;
+    size_t start = text.find(declarationStart);
+
+    while (start != std::string::npos) {
+        size_t versionStart = start + declarationStart.length();
+
+        while ((versionStart < text.length()) && (isspace(static_cast<unsigned char>(text[versionStart])) != 0)) {
+            ++versionStart;
+        }
+
+        size_t end = std::string::npos;
+
+        if ((versionStart != start + declarationStart.length())
+            && (text.compare(versionStart, version.length(), version) == 0)) {
+            size_t lineEnd = text.find_first_of("\n\r", versionStart);
+
+            if (lineEnd == std::string::npos) {
+                lineEnd = text.length();
+            }
+
+            if (lineEnd >= versionStart + version.length() + declarationEnd.length()) {
+                end = text.rfind(declarationEnd, lineEnd - declarationEnd.length());
+
+                if ((end != std::string::npos) && (end < versionStart + version.length())) {
+                    end = std::string::npos;
+                }
+            }
+        }
+
+        if (end == std::string::npos) {
+            start = text.find(declarationStart, start + 1);
+        } else {
+            res += text.substr(pos, start - pos);
+            pos = end + declarationEnd.length();
+            start = text.find(declarationStart, pos);
+        }
+    }
+
+    return res + text.substr(pos);
+}
+
+/**
+ * @brief Remove the whitespace that follows a '>' or precedes a '<'.
+ *
+ * Note: see removeXmlDeclarations() for why this is not done with a regular
+ *       expression.
+ *
+ * @param text The string to clean.
+ *
+ * @return The string without whitespace around its markup.
+ */
+std::string removeWhitespaceAroundMarkup(const std::string &text)
+{
+    std::string res;
+    size_t i = 0;
+
+    res.reserve(text.length());
+
+    while (i < text.length()) {
+        if (isspace(static_cast<unsigned char>(text[i])) == 0) {
+            res += text[i];
+            ++i;
+        } else {
+            size_t j = i;
+
+            while ((j < text.length()) && (isspace(static_cast<unsigned char>(text[j])) != 0)) {
+                ++j;
+            }
+
+            bool afterMarkup = !res.empty() && (res.back() == '>');
+            bool beforeMarkup = (j < text.length()) && (text[j] == '<');
+
+            if (!afterMarkup && !beforeMarkup) {
+                res += text.substr(i, j - i);
+            }
+
+            i = j;
+        }
+    }
+
+    return res;
+}
+
 std::string Printer::PrinterImpl::printMath(const std::string &math)
 {
     static const std::string wrapElementName = "math_wrap_as_single_root_element";
-    static const std::regex before(">[\\s\n\t]*");
-    static const std::regex after("[\\s\n\t]*<");
-    static const std::regex xmlDeclaration(R"|(<\?xml[[:space:]]+version=.*\?>)|");
 
     XmlDocPtr xmlDoc = std::make_shared<XmlDoc>();
     xmlKeepBlanksDefault(0);
     // Remove any XML declarations from the string.
-    std::string normalisedMath = std::regex_replace(math, xmlDeclaration, "");
+    std::string normalisedMath = removeXmlDeclarations(math);
     xmlDoc->parse("<" + wrapElementName + ">" + normalisedMath + "</" + wrapElementName + ">");
     if (xmlDoc->xmlErrorCount() == 0) {
         auto rootNode = xmlDoc->rootNode();
@@ -195,8 +295,7 @@ std::string Printer::PrinterImpl::printMath(const std::string &math)
             childNode = childNode->next();
         }
         // Clean whitespace in the math.
-        result = std::regex_replace(result, before, ">");
-        return std::regex_replace(result, after, "<");
+        return removeWhitespaceAroundMarkup(result);
     } else {
         for (size_t i = 0; i < xmlDoc->xmlErrorCount(); ++i) {
             auto issue = Issue::IssueImpl::create();
